@@ -42,10 +42,22 @@ def gen_system_spec(rng, allow_alpha=True, allow_nosurr=True, max_comp=3):
     return spec
 
 
-def comp_fn(c):
+def comp_fn(c, coupling_domain=(-1.0, 3.0)):
     w, kind = c['w'], c['kind']
 
+    def unit(v, t):     # position of t in the domain of variable v (exogenous inputs live on (0,1))
+        lb, ub = (0.0, 1.0) if v.startswith('x') else coupling_domain
+        return (t - lb) / (ub - lb)
+
     def f(alpha, x):
+        if kind == 'zero':
+            # vanishes on every node of the level-0 and level-1 grids (centre and end points of every input domain): the
+            # surrogate stays identically zero — and every error indicator on this output undefined — until level 2
+            g = 1.0
+            for wi, v in zip(w, c['ins']):
+                u = unit(v, x[v])
+                g = g * (8.0 * wi * u * (u - 0.5) * (u - 1.0))
+            return {c['out']: float(g * (1.0 + 0.15 * sum(alpha)))}
         s = sum(wi * x[v] for wi, v in zip(w, c['ins']))
         a = 1.0 + 0.15 * sum(alpha)
         if kind == 'exp':
@@ -71,7 +83,7 @@ def build_system(spec, listing=None, name='sys', root_dir=None, vectorized=True,
         vars_[c['out']] = Variable(c['out'], domain=tuple(spec.get('coupling_domain', (-1.0, 3.0))))
     comps = []
     for c in spec['comps']:
-        rec = cc.Recorder(comp_fn(c), c['ins'], [c['out']], c['na'], vectorized, cost_of(c['cost']))
+        rec = cc.Recorder(comp_fn(c, tuple(spec.get('coupling_domain', (-1.0, 3.0)))), c['ins'], [c['out']], c['na'], vectorized, cost_of(c['cost']))
         if recorders is not None:
             recorders[c['name']] = rec
         model = rec.model()
